@@ -121,6 +121,15 @@ pub fn run(tier: Tier, seed: u64) -> i32 {
     let results = par_map(total, crate::util::ncpu(), |i| {
         let mut rng = Rng::new(seed).fork(0x1200 + i as u64);
         let mut case = ccommon::gen_case(&mut rng, i >= groups, true);
+        // Metadata maps (several entries: their order in the dictionary must not depend on
+        // anything but the keys).
+        super::c11::gen_metadata(&mut rng, &mut case);
+        if i % 3 == 0 {
+            for k in 0..4 {
+                case.spec.metadata_values.retain(|e| e.0 != format!("det{}", k));
+                case.spec.metadata_values.push((format!("det{}", k), format!("value {}", k)));
+            }
+        }
         // Determinism needs something to reorder: prefer multi-chunk sources.
         if i < groups && case.src_len < 2000 && rng.chance(3, 4) {
             case.src_len = rng.urange(2000, 60_000);
